@@ -40,34 +40,49 @@ func RuleKSwapSign(c *core.Ctx) {
 		if core.PkgPathOf(fn) != pkgPosting {
 			continue
 		}
-		// the exchange: a block that stores Builder.Credit and Builder.Debit
+		// the exchange: a block that is executed only under a condition and negates
+		// the builder's quantity (the exchange of credit and debit goes with the
+		// negation of quantity and value; the unconditional Neg that builds the
+		// credit-side posting is in a block every path passes)
 		var swap *ssa.BasicBlock
-		for _, b := range fn.Blocks {
-			sc, sd := false, false
-			for _, ins := range b.Instrs {
-				if st, ok := ins.(*ssa.Store); ok {
-					if fa, ok := st.Addr.(*ssa.FieldAddr); ok {
-						// the value stored is the other field (read before the stores)
-						var from *types.Var
-						switch x := core.Strip(st.Val).(type) {
-						case *ssa.UnOp:
-							if sfa, ok := x.X.(*ssa.FieldAddr); ok && x.Op == token.MUL {
-								from = core.FieldOf(sfa)
-							}
-						case *ssa.Field:
-							from = core.FieldOf(x)
-						}
-						switch core.FieldOf(fa) {
-						case credit:
-							sc = sc || from == debit
-						case debit:
-							sd = sd || from == credit
-						}
-					}
+		readsBuilder := false
+		core.EachInstr(fn, func(ins ssa.Instruction) {
+			switch x := ins.(type) {
+			case *ssa.FieldAddr:
+				if f := core.FieldOf(x); f == credit || f == debit {
+					readsBuilder = true
+				}
+			case *ssa.Field:
+				if f := core.FieldOf(x); f == credit || f == debit {
+					readsBuilder = true
 				}
 			}
-			if sc && sd {
-				swap = b
+		})
+		if !readsBuilder {
+			continue
+		}
+		for _, b := range fn.Blocks {
+			for _, ins := range b.Instrs {
+				call, ok := ins.(*ssa.Call)
+				if !ok {
+					continue
+				}
+				callee := call.Call.StaticCallee()
+				if callee == nil || core.PkgPathOf(callee) != pkgDecimal || callee.Name() != "Neg" || len(call.Call.Args) != 1 {
+					continue
+				}
+				fromQ := false
+				for v := range originSet(p, call.Call.Args[0], 0) {
+					switch x := v.(type) {
+					case *ssa.FieldAddr:
+						fromQ = fromQ || core.FieldOf(x) == qf
+					case *ssa.Field:
+						fromQ = fromQ || core.FieldOf(x) == qf
+					}
+				}
+				if fromQ && blockIsConditional(fn, b) {
+					swap = b
+				}
 			}
 		}
 		if swap == nil {
@@ -380,4 +395,26 @@ func (in *signInterp) evalCallee(fn *ssa.Function, sq, sv int, depth int) (bool,
 		}
 	}
 	return false, core.FuncName(fn) + " does not terminate within 200 steps"
+}
+
+// blockIsConditional: some path from the entry to a return does not pass b.
+func blockIsConditional(fn *ssa.Function, b *ssa.BasicBlock) bool {
+	if len(fn.Blocks) == 0 || fn.Blocks[0] == b {
+		return false
+	}
+	seen := map[*ssa.BasicBlock]bool{b: true}
+	work := []*ssa.BasicBlock{fn.Blocks[0]}
+	for len(work) > 0 {
+		x := work[0]
+		work = work[1:]
+		if seen[x] {
+			continue
+		}
+		seen[x] = true
+		if _, ok := x.Instrs[len(x.Instrs)-1].(*ssa.Return); ok {
+			return true
+		}
+		work = append(work, x.Succs...)
+	}
+	return false
 }
